@@ -193,6 +193,9 @@ pub enum Op {
     SendPark { slot: u16, script: Vec<PStep>, polls: u8 },
     /// await a parked send future to completion
     AwaitParked { slot: u16 },
+    /// L2: spin until `parties` clients have arrived at rendezvous `id`, then spin for `jitter` x 10 ns, so that the
+    /// next operations of those clients run within nanoseconds of each other on different threads; L1: one yield
+    Rendezvous { id: u8, parties: u8, jitter: u16 },
     Query { slot: u16, running: bool },
     Yield,
     Sleep(u64),
